@@ -24,7 +24,7 @@ type Case struct {
 func genCase(t *rapid.T) Case {
 	var c Case
 	nofan := rapid.IntRange(0, 2).Draw(t, "nofanout") == 0
-	c.Spec = gen.HandshakeMachine(t, gen.HSOptions{MaxProcs: 4, MaxPad: 3, NoFanout: nofan, EqualLoops: rapid.Bool().Draw(t, "equalloops")})
+	c.Spec = gen.HandshakeMachine(t, gen.HSOptions{MaxProcs: 4, MaxPad: 3, NoFanout: nofan, EqualLoops: rapid.Bool().Draw(t, "equalloops"), Replicate: true})
 	for i := 0; i < c.Spec.Inputs; i++ {
 		n := rapid.IntRange(0, 20).Draw(t, "nin")
 		var st []uint64
@@ -313,14 +313,47 @@ func prop(c Case) pbt.Outcome {
 type simMonitor struct {
 	spec   gen.BMSpec
 	d4, d5 bool
+	tick   int
+	lastPc []int
+	// tick in which processor p last left an r2owa on output k (the recorded D5 mechanism is a second
+	// write arriving before the consumers' received flags had the one tick they need to fall)
+	lastDone map[[2]int]int
+	// sameOffer[p,k]: input k of processor p has been captured and its valid line has not fallen since
+	// (the recorded D4 mechanism is a second capture of that same offer)
+	sameOffer map[[2]int]bool
 }
 
-func newSimMonitor(s gen.BMSpec) *simMonitor { return &simMonitor{spec: s} }
+func newSimMonitor(s gen.BMSpec) *simMonitor {
+	return &simMonitor{spec: s, lastPc: make([]int, len(s.Procs)), lastDone: map[[2]int]int{}, sameOffer: map[[2]int]bool{}}
+}
 
 func (m *simMonitor) before(r *gen.Runner) {
+	m.tick++
 	for p, ps := range m.spec.Procs {
 		vm := r.VM.Processors[p]
 		pc := int(vm.Pc)
+		// did the processor leave an r2owa in the previous tick?
+		if lp := m.lastPc[p]; lp < len(ps.Prog) && pc != lp {
+			if f := strings.Fields(ps.Prog[lp]); f[0] == "r2owa" {
+				var k int
+				fmt.Sscanf(f[2], "o%d", &k)
+				m.lastDone[[2]int{p, k}] = m.tick - 1
+			}
+		}
+		// did it leave an i2rw (capture) in the previous tick? valid lines that fell end the offer
+		if lp := m.lastPc[p]; lp < len(ps.Prog) && pc != lp {
+			if f := strings.Fields(ps.Prog[lp]); f[0] == "i2rw" {
+				var k int
+				fmt.Sscanf(f[2], "i%d", &k)
+				m.sameOffer[[2]int{p, k}] = true
+			}
+		}
+		for k := range vm.InputsValid {
+			if !vm.InputsValid[k] {
+				m.sameOffer[[2]int{p, k}] = false
+			}
+		}
+		m.lastPc[p] = pc
 		if pc >= len(ps.Prog) || vm.DelayCounter != 0 {
 			continue
 		}
@@ -329,13 +362,13 @@ func (m *simMonitor) before(r *gen.Runner) {
 		case "i2rw":
 			var k int
 			fmt.Sscanf(f[2], "i%d", &k)
-			if vm.InputsRecv[k] {
+			if vm.InputsRecv[k] && vm.InputsValid[k] && m.sameOffer[[2]int{p, k}] {
 				m.d4 = true
 			}
 		case "r2owa":
 			var k int
 			fmt.Sscanf(f[2], "o%d", &k)
-			if !vm.OutputsValid[k] && vm.OutputsRecv[k] {
+			if last, ok := m.lastDone[[2]int{p, k}]; ok && !vm.OutputsValid[k] && vm.OutputsRecv[k] && m.tick-last <= 2 {
 				m.d5 = true
 			}
 		}
@@ -354,16 +387,33 @@ func (m *simMonitor) fired() []string {
 }
 
 type hdlMonitor struct {
-	spec    gen.BMSpec
-	d4, d12 bool
+	spec      gen.BMSpec
+	d4, d12   bool
+	lastPc    []int
+	sameOffer map[[2]int]bool
 }
 
-func newHDLMonitor(s gen.BMSpec) *hdlMonitor { return &hdlMonitor{spec: s} }
+func newHDLMonitor(s gen.BMSpec) *hdlMonitor {
+	return &hdlMonitor{spec: s, lastPc: make([]int, len(s.Procs)), sameOffer: map[[2]int]bool{}}
+}
 
 func (m *hdlMonitor) before(r *gen.HDLRunner) {
 	for p, ps := range m.spec.Procs {
 		base := fmt.Sprintf("a%d_inst.p%d_instance.", p, p)
 		pc := int(r.Sim.Get(base + "_pc"))
+		if lp := m.lastPc[p]; lp < len(ps.Prog) && pc != lp {
+			if f := strings.Fields(ps.Prog[lp]); f[0] == "i2rw" {
+				var k int
+				fmt.Sscanf(f[2], "i%d", &k)
+				m.sameOffer[[2]int{p, k}] = true
+			}
+		}
+		for k := 0; k < ps.N; k++ {
+			if r.Sim.Get(fmt.Sprintf("%si%d_valid", base, k)) == 0 {
+				m.sameOffer[[2]int{p, k}] = false
+			}
+		}
+		m.lastPc[p] = pc
 		if pc >= len(ps.Prog) {
 			continue
 		}
@@ -372,7 +422,9 @@ func (m *hdlMonitor) before(r *gen.HDLRunner) {
 		case "i2rw":
 			// the processor reads whenever valid is high: doing so while its own received flag of the
 			// previous read is still up re-reads the same offer (hardware side of D4)
-			if r.Sim.Get(base+f[2]+"_recv") == 1 && r.Sim.Get(base+f[2]+"_valid") == 1 {
+			var k int
+			fmt.Sscanf(f[2], "i%d", &k)
+			if r.Sim.Get(base+f[2]+"_recv") == 1 && r.Sim.Get(base+f[2]+"_valid") == 1 && m.sameOffer[[2]int{p, k}] {
 				m.d4 = true
 			}
 		case "r2owa":
